@@ -266,7 +266,7 @@ func scenario(p params, bounds []int) *vexp.Scenario {
 func build(tier string) []*vexp.Scenario {
 	bounds := []int{0, 1}
 	if tier == "thorough" {
-		bounds = []int{0, 1, 2}
+		bounds = []int{0, 1, 2, 3}
 	}
 	var out []*vexp.Scenario
 	for _, k := range []string{"order", "twice", "unsub", "unsuball", "die", "die-reactive", "own-killed", "zombie-die", "restart"} {
